@@ -286,6 +286,8 @@ class RaggedArray:
            copy of the darr array
 
         """
+        # the array may have been changed through another RaggedArray object
+        self._sync_arrayinfo()
         arrayiterable = (self[i] for i in range(len(self)))
         metadata = dict(self.metadata)
         if dtype is None:
@@ -330,6 +332,8 @@ class RaggedArray:
 
         """
 
+        # the array may have been changed through another RaggedArray object
+        self._sync_arrayinfo()
         if endindex is None:
             endindex = self.narrays
         with self.open_arrays(accessmode=accessmode):
